@@ -43,6 +43,10 @@ def _entries(db, qt_of, base_of, defcat_of, thorough):
         "GetInfo(qt,u).unit": lambda s, u: P.outcome(lambda: db.GetInfo(qt_of[u], s).unit),
         "Quantity.Convert(u)": lambda s, u: P.outcome(
             lambda: ObtainQuantity(base_of[qt_of[u]], cat(u)).ConvertScalarValue(2.5, s)),
+        # the same (category, spelling) again through doors that do not go through the cache of ObtainQuantity(u, cat) above
+        "Quantity(cat,u) built directly": lambda s, u: P.outcome(lambda: __import__("barril.units").units.Quantity(cat(u), s)),
+        "ObtainQuantity(u,cat,caption)": lambda s, u: P.outcome(ObtainQuantity, s, cat(u), "a caption"),
+        "Scalar(v,u,cat) again": lambda s, u: P.outcome(Scalar, 1.5, s, cat(u)),
     }
     return E
 
